@@ -35,20 +35,25 @@ static void run_case(const std::string& cid, Toks& t) {
         int nb = t.next_int(); std::vector<double> B = t.nums(nb);
         if (!L.usable()) return;
         char buf[32]; snprintf(buf, sizeof buf, "%d", ppn); setenv("PPN", buf, 1);
-        ParCOOMatrix* A0 = L.coo(); ParMatrix* A = to_fmt(A0, fmt);
+        ParCOOMatrix* A0 = L.coo(); ParMatrix* A; ParMatrix* sized = NULL;     // vector sizes are those of the scalar matrix
+        if (fmt.compare(0, 3, "bsr") == 0) {       // bsr<r>x<c>: the scalar matrix regrouped into r x c blocks (ParCSRMatrix::to_ParBSR)
+            int brs = atoi(fmt.c_str() + 3), bcs = atoi(fmt.c_str() + fmt.find('x') + 1);
+            ParCSRMatrix* Ac = A0->to_ParCSR(); A = Ac->to_ParBSR(brs, bcs); sized = Ac;
+        } else A = to_fmt(A0, fmt);
         if (tap) A->init_tap_communicators();
-        Partition* pt = A->partition;
+        if (!sized) sized = A;
+        Partition* pt = sized->partition;
         bool T = (kind == "mult_T");
         // x lives on the column partition for A x, on the row partition for A^T x
-        ParVector x(T ? L.nr : L.nc, T ? A->local_num_rows : pt->local_num_cols);
-        ParVector b(T ? L.nc : L.nr, T ? pt->local_num_cols : A->local_num_rows);
+        ParVector x(T ? L.nr : L.nc, T ? sized->local_num_rows : pt->local_num_cols);
+        ParVector b(T ? L.nc : L.nr, T ? pt->local_num_cols : sized->local_num_rows);
         fill_parvec(x, T ? pt->first_local_row : pt->first_local_col, X);
         if (kind == "mult" || kind == "mult_T") { for (int i = 0; i < b.local_n; i++) b.local[i] = 777.0; }   // stale content
         else fill_parvec(b, pt->first_local_row, B);
         if (kind == "mult") A->mult(x, b, tap);
         else if (kind == "mult_append") A->mult_append(x, b, tap);
         else if (kind == "mult_T") A->mult_T(x, b, tap);
-        else if (kind == "residual") { ParVector r(L.nr, A->local_num_rows); for (int i = 0; i < r.local_n; i++) r.local[i] = 777.0;
+        else if (kind == "residual") { ParVector r(L.nr, sized->local_num_rows); for (int i = 0; i < r.local_n; i++) r.local[i] = 777.0;
             A->residual(x, b, r, tap); emit_all(cid, "V", parvec_str(r)); emit0(cid, "DONE", "1"); return; }
         else throw std::runtime_error("kind " + kind);
         emit_all(cid, "V", parvec_str(b)); emit0(cid, "DONE", "1");
@@ -72,6 +77,36 @@ static void run_case(const std::string& cid, Toks& t) {
             if (c >= C->partition->first_local_col && c <= C->partition->last_local_col) ok = false;
         }
         o << (ok ? 1 : 0); emit_all(cid, "M", o.str()); emit0(cid, "DONE", "1");
+    } else if (op == "pbig") {
+        // cid pbig B tap ppn k op1..opk     ops: F (b = A x) / T (b = A^T x), operation q uses the vector x_q
+        // A (formula, n = P*B): a_ii = 2; for rows of rank p < P-1: a_{i, (p+1)B + i%B} = 1 + i%3.  One-directional chain of
+        // messages of B values (above the eager limit for B >= 1024); integer data, every product is exact.
+        int B = t.next_int(), tap = t.next_int(), ppn = t.next_int(), k = t.next_int();
+        int P = g_np, n = P * B, p = g_rank;
+        char buf[32]; snprintf(buf, sizeof buf, "%d", ppn); setenv("PPN", buf, 1);
+        ParCOOMatrix* A0 = new ParCOOMatrix(n, n, B, B, p * B, p * B);
+        for (int i = p * B; i < (p + 1) * B; i++) { A0->add_global_value(i, i, 2.0);
+            if (p < P - 1) A0->add_global_value(i, (p + 1) * B + i % B, 1.0 + i % 3); }
+        A0->finalize();
+        ParCSRMatrix* A = A0->to_ParCSR();
+        if (tap) A->init_tap_communicators();
+        auto xval = [](int i, int q) { return (double)((i * 13 + q * 17) % 11 - 5); };
+        std::ostringstream verdict; long bad_total = 0;
+        ParVector x(n, B), b(n, B);
+        for (int q = 0; q < k; q++) {
+            std::string o = t.next();
+            for (int i = 0; i < B; i++) { x.local[i] = xval(p * B + i, q); b.local[i] = 777.0; }
+            if (o == "F") A->mult(x, b, tap); else A->mult_T(x, b, tap);
+            long bad = 0; int first = -1; double got = 0, want = 0;
+            for (int l = 0; l < B; l++) { int i = p * B + l; double e = 2.0 * xval(i, q);
+                if (o == "F") { if (p < P - 1) e += (1.0 + i % 3) * xval((p + 1) * B + l, q); }
+                else if (p > 0) { int src = (p - 1) * B + l; e += (1.0 + src % 3) * xval(src, q); }
+                if (b.local[l] != e) { if (!bad) { first = i; got = b.local[l]; want = e; } bad++; } }
+            verdict << " " << o << q << ":" << bad; if (bad) verdict << "@" << first << "=" << got << "!=" << want;
+            bad_total += bad;
+        }
+        emit_all(cid, "BIG", verdict.str()); emit0(cid, "DONE", "1");
+        delete A; delete A0;
     } else throw std::runtime_error("unknown op " + op);
 }
 
